@@ -319,5 +319,102 @@ def run(ctx):
             if p.returncode != 0 or sorted(strip_stamp(p.stdout).rstrip("\n").split("\n")) != sorted(strip_stamp(ret).rstrip("\n").split("\n")):
                 res.violation("command-line conversion differs from the function call", {"kind": "cli", "file": open(path).read()[:800], "generator": gen_},
                               impl=(p.stderr or "")[-300:], clause="command-line entry point")
+    # ---- program tie: the declaration / use structure of both real outputs against the model (progCpp / progPy), the model's
+    # closure verdict against the real text, and "Supported => closed" (theorems C19_closed_cpp / _py) on the real outputs
+    from decaylanguage.modeling.goofit import GooFitChain, GooFitPyChain, programmatic_name
+
+    from . import progtie as PT
+    from .common import Batch
+    batch = Batch(ctx["driver_ok"])
+    n_prog = 40 if tier == "quick" else 400
+    prog_files = [(shipped, "shipped")]
+    for k in range(n_prog):
+        doc, text, mode = PT.gen_case(rng, k)
+        path = os.path.join(tmp, f"pt{k}.txt")
+        open(path, "w").write(text)
+        prog_files.append((path, mode))
+    names_seen = set()
+    for path, mode in prog_files:
+        case = {"kind": "program", "mode": mode, "file": open(path).read()[:1500] if mode != "shipped" else "models/DtoKpipipi_v2.txt"}
+        try:
+            op_c = PT.model_input(GooFitChain, path)
+            op_p = PT.model_input(GooFitPyChain, path)
+        except Exception as e:
+            res.violation(f"read_ampgen raised {type(e).__name__}: {str(e)[:120]}", case, clause="reads")
+            continue
+        if op_c != op_p:
+            res.violation("the two reader classes read different inputs from one file", case, clause="same declarations in both languages: input")
+            continue
+        names_seen.update(r[0] for r in op_c[3])
+        names_seen.update(r[0] for r in op_c[4])
+        real = {}
+        for py in (False, True):
+            t = convert(path, py)
+            if t.startswith("ERROR"):
+                real[py] = ("err", t)
+            else:
+                try:
+                    rp = PT.real_program(t, py)
+                    odd = [x for x in rp if x[0].startswith("?") or "<<unterminated>>" in str(x)]
+                    real[py] = ("odd", odd[:2]) if odd else ("ok", rp)
+                except Exception as e:
+                    real[py] = ("odd", str(e))
+        res.case(canon_json(case) if mode == "supported" else None)
+        res.count("programs:" + mode)
+
+        def onp(ans, case=case, real=real, mode=mode):
+            if ans is None:
+                return
+            if ans[0] != "ok":
+                res.violation("the model refuses the operation", case, model=ans, clause="model tie: program")
+                return
+            m_cpp, m_py, m_supported, m_closed_c, m_closed_p = ans[1]
+            for py, m_ans, m_closed in ((False, m_cpp, m_closed_c), (True, m_py, m_closed_p)):
+                lang = "python" if py else "c++"
+                kind, mp = PT.model_program(m_ans)
+                rk, rp = real[py]
+                c2 = dict(case, language=lang)
+                if rk == "odd":
+                    res.violation("a statement of unknown form in the real output", c2, impl=rp, clause="model tie: program")
+                    continue
+                if rk == "err":
+                    if kind == "ok":
+                        res.violation("the conversion raises but the model produces a program", c2, impl=rp[:200], clause="model tie: program")
+                    else:
+                        res.count("programs_both_refuse")
+                    continue
+                if kind != "ok":
+                    res.violation("the conversion succeeds but the model refuses", c2, model=mp, clause="model tie: program")
+                    continue
+                a, b = PT.canon(rp), PT.canon(mp)
+                res.count("program_statements", len(a))
+                if a != b:
+                    diff = [(x, y) for x, y in zip(a, b) if x != y][:2] or [a[len(b):][:2], b[len(a):][:2]]
+                    res.violation("declarations / uses of the real output differ from the model program", c2, impl=[d[0] for d in diff][:2], model=[d[1] for d in diff][:2],
+                                  clause="model tie: program")
+                    continue
+                bad = PT.closed(rp)
+                res.count("real_closed" if not bad else "real_not_closed")
+                if (m_closed == "T") != (not bad):
+                    res.violation("closure verdict of the model differs from the real text", c2, impl=bad[:3], model=m_closed, clause="model tie: program")
+                if m_supported == "T":
+                    res.count("supported_outputs")
+                    if bad:
+                        res.violation("a model symbol is used but not declared earlier in the same output (input meets the theorem's Supported predicate)",
+                                      c2, impl=bad[:4], clause="every symbol declared before use")
+
+        batch.add(op_c, onp)
+    alphabet = list("abKpi0019") + ["(", ")", "*", "'", "::", "+", "-", "_", "/", "~", "++", "--", ")("]
+    pool = sorted(names_seen) + ["".join(rng.choice(alphabet) for _ in range(rng.randint(1, 9))) for _ in range(100 if tier == "quick" else 1500)]
+    for nm in pool:
+        want = programmatic_name(nm)
+        res.count("programmatic_names")
+
+        def onn(ans, nm=nm, want=want):
+            if ans is not None and ans != ["ok", want]:
+                res.violation("programmatic_name differs from the model", {"kind": "progname", "name": nm}, impl=want, model=ans, clause="model tie: programmatic_name")
+
+        batch.add(["progname", nm], onn)
+    batch.run()
     shutil.rmtree(tmp, ignore_errors=True)
     return res.done()
